@@ -1159,3 +1159,31 @@ func regexpFindAll(re, s string) []string {
 	}
 	return out
 }
+
+// exposedToEntryPoints: functions whose panics would escape a public entry point: reachable from pkg.* without passing
+// through a function that installs the deferred-recover idiom (its own body and everything below it is protected).
+func (p *Prog) exposedToEntryPoints() map[string]bool {
+	protected := map[string]bool{}
+	for _, n := range p.Order {
+		if recovers(p.Funcs[n].Body()) {
+			protected[n] = true
+		}
+	}
+	exp := map[string]bool{}
+	var stack []string
+	stack = append(stack, entryPoints...)
+	for len(stack) > 0 {
+		n := stack[len(stack)-1]
+		stack = stack[:len(stack)-1]
+		if exp[n] || protected[n] {
+			continue
+		}
+		exp[n] = true
+		if d := p.Direct[n]; d != nil {
+			for c := range d.Calls {
+				stack = append(stack, c)
+			}
+		}
+	}
+	return exp
+}
